@@ -12,6 +12,8 @@ import Verif.Common.SemLemmas
 import Verif.C07.WfLemmas
 import Verif.C07.Lemmas
 import Verif.C07.DmrsLemmas
+import Verif.C07.ConnLemmas
+import Verif.C07.PlausLemmas
 
 namespace Verif.C07
 open Verif.Sem
@@ -107,6 +109,24 @@ theorem isConnected_start_independent (m : MRS) (s : Var) (hs : s ∈ m.ids) :
   · intro h j hj
     exact h s hs j hj
 
+/-- "connectedness equals graph connectivity of the predications under label sharing, shared
+intrinsic variables and arguments resolved through handle constraints" — against a relation defined
+on the PREDICATIONS themselves, independently of the model's `graphEdges`/`graphNodes`:
+`PAdj m p q` iff `p` and `q` have one of their own variables in common (the same label, the same
+intrinsic variable, …; `predOwns r v` := `v` is `r`'s id, label or intrinsic variable), or an argument
+of `p` (not ARG0/CARG), replaced by the lo of the last handle constraint whose hi it is (else itself),
+is `q`'s label, intrinsic variable or id.  `PConn m` is the reflexive, symmetric, transitive closure
+over `m.preds`.  ICONS, the top, and handle constraints nobody selects play no role. -/
+theorem isConnected_iff_predications (m : MRS) :
+    m.isConnected = true ↔ ∀ p ∈ m.preds, ∀ q ∈ m.preds, PConn m p q :=
+  isConnected_iff_pconn m
+
+/-- the graph-level and the predication-level connectivity coincide on predication ids. -/
+theorem connected_iff_predications (m : MRS) (p q : Pred) (hp : p ∈ m.preds) (hq : q ∈ m.preds) :
+    Connected m p.1 q.1 ↔ PConn m p q := by
+  rw [connected_iff_reach]
+  exact reach_iff_pconn m p q hp hq
+
 /-! ## 2. The intrinsic-variable tests equal their definitions -/
 
 /-- "the intrinsic-variable tests equal their definitions": completeness. -/
@@ -200,6 +220,55 @@ theorem hasIVProperty_spec (m : MRS) :
     intro i j hi hj hij hqi hqj
     exact h2 i j hi hj hij ((hq _).mp hqi) ((hq _).mp hqj)
 
+/-! ## 2b. plausibly_scopes equals its documented tests -/
+
+/-- `plausibly_scopes` — a single pass with an order-dependent `seen` set in the code and in the
+model — equals the conjunction of the tests its docstring lists, stated declaratively over the top,
+the handle constraints (`hcmap v` = lo of the LAST constraint with hi `v`, `hcmap_spec`), the labels
+and the handle-valued arguments in order (`handleArgs_spec`):
+ * the top is the hi of a handle constraint ("Is the MRS's top qeq to a label");
+ * no EP has a handle argument equal to its own label ("Do any EPs scope over themselves");
+ * an argument that is the hi of a constraint was not selected before — it is not the top, not an
+   earlier handle argument, not the lo of a constraint selected earlier ("Do multiple EPs use the
+   handle constraint") — and that constraint's lo is a label ("Is the lo handle of a qeq not actually
+   a label"); a label used directly as an argument was not selected before;
+ * every handle constraint is selected by the top or some argument, and its lo is a label ("Are any
+   qeqs not selected by an EP").
+`PsSelected hcm t pre x` := `x = t ∨ ∃ lh ∈ pre, x ∈ psContrib hcm lh` (what the top and the arguments
+`pre` select: each argument itself and, if it is the hi of a constraint, that constraint's lo). -/
+theorem plausiblyScopes_spec (m : MRS) :
+    m.plausiblyScopes = true ↔
+      ∃ t, m.top = some t ∧ (∃ lo, m.hcmap t = some lo) ∧
+        (∀ pre lh post, m.handleArgs = pre ++ lh :: post →
+            PsStepOK m.labels m.hcmap (PsSelected m.hcmap t pre) lh) ∧
+        (∀ hc ∈ m.hcons, PsSelected m.hcmap t m.handleArgs hc.hi ∧
+            ∃ lo, m.hcmap hc.hi = some lo ∧ lo ∈ m.labels) :=
+  plausiblyScopes_iff m
+
+/-- `hcmap` is the Python dict `{hc.hi: hc.lo for hc in m.hcons}`: the last constraint on `v` wins. -/
+theorem hcmap_spec (m : MRS) (v lo : Var) :
+    m.hcmap v = some lo ↔ ∃ pre hc post, m.hcons = pre ++ hc :: post ∧ hc.hi = v ∧ hc.lo = lo ∧
+      ∀ hc' ∈ post, hc'.hi ≠ v :=
+  hcmap_eq_some_iff m v lo
+
+/-- the handle-valued arguments: (label of the EP, value) for every argument other than ARG0/CARG
+whose sort is `h`. -/
+theorem handleArgs_spec (m : MRS) (lh : Var × Var) :
+    lh ∈ m.handleArgs ↔ ∃ p ∈ m.preds, lh.1 = p.2.label ∧ ∃ a ∈ p.2.args,
+      a.1 ≠ INTRINSIC_ROLE ∧ a.1 ≠ CONSTANT_ROLE ∧ a.2.sortIn "h" = true ∧ lh.2 = a.2 :=
+  mem_handleArgs m lh
+
+/-- the conditions of `plausiblyScopes_spec` are satisfiable and refutable: `h0 qeq h1`, one EP with a
+qeq-ed scopal argument — plausible; the same with the argument equal to the EP's own label — not. -/
+example :
+    let a : EP := { predicate := "neg", label := ⟨"h", 1⟩, args := [("ARG0", ⟨"e", 2⟩), ("ARG1", ⟨"h", 3⟩)] }
+    let b : EP := { predicate := "_rain_v_1", label := ⟨"h", 4⟩, args := [("ARG0", ⟨"e", 5⟩)] }
+    let a' : EP := { a with args := [("ARG0", ⟨"e", 2⟩), ("ARG1", ⟨"h", 1⟩)] }
+    let hc : List HCons := [⟨⟨"h", 0⟩, "qeq", ⟨"h", 1⟩⟩, ⟨⟨"h", 3⟩, "qeq", ⟨"h", 4⟩⟩]
+    (MRS.plausiblyScopes { top := some ⟨"h", 0⟩, index := none, rels := [a, b], hcons := hc } = true) ∧
+    (MRS.plausiblyScopes { top := some ⟨"h", 0⟩, index := none, rels := [a', b], hcons := hc } = false) :=
+  ⟨by decide, by decide⟩
+
 /-! ## 3. is_well_formed is exactly the conjunction -/
 
 /-- "is_well_formed is exactly the conjunction of connectedness, the
@@ -209,13 +278,23 @@ theorem isWellFormed_iff (m : MRS) :
       (m.isConnected = true ∧ m.hasIVProperty = true ∧ m.plausiblyScopes = true) := by
   simp [MRS.isWellFormed, Bool.and_eq_true, and_assoc]
 
-/-- … with every conjunct replaced by its definition. -/
+/-- … with every conjunct replaced by its INDEPENDENT definition: predication-level connectivity
+(`isConnected_iff_predications`), the positional intrinsic-variable property (`hasIVProperty_spec`) and
+the declarative scoping tests (`plausiblyScopes_spec`). -/
 theorem isWellFormed_spec (m : MRS) :
     m.isWellFormed = true ↔
-      ((∀ i ∈ m.ids, ∀ j ∈ m.ids, Connected m i j) ∧
-       ((∀ e ∈ m.rels, e.isQuantifier = false → e.iv ≠ none) ∧ m.nonQuantIVs.Nodup) ∧
-       m.plausiblyScopes = true) := by
-  rw [isWellFormed_iff, isConnected_iff, hasIVProperty_iff]
+      ((∀ p ∈ m.preds, ∀ q ∈ m.preds, PConn m p q) ∧
+       ((∀ e ∈ m.rels, (¬ ∃ v, (RESTRICTION_ROLE, v) ∈ e.args) → ∃ v, (INTRINSIC_ROLE, v) ∈ e.args) ∧
+        (∀ (i j : Nat) (hi : i < m.rels.length) (hj : j < m.rels.length), i < j →
+           (¬ ∃ v, (RESTRICTION_ROLE, v) ∈ m.rels[i].args) →
+           (¬ ∃ v, (RESTRICTION_ROLE, v) ∈ m.rels[j].args) →
+           ∀ v, m.rels[i].iv = some v → m.rels[j].iv ≠ some v)) ∧
+       (∃ t, m.top = some t ∧ (∃ lo, m.hcmap t = some lo) ∧
+         (∀ pre lh post, m.handleArgs = pre ++ lh :: post →
+             PsStepOK m.labels m.hcmap (PsSelected m.hcmap t pre) lh) ∧
+         (∀ hc ∈ m.hcons, PsSelected m.hcmap t m.handleArgs hc.hi ∧
+             ∃ lo, m.hcmap hc.hi = some lo ∧ lo ∈ m.labels))) := by
+  rw [isWellFormed_iff, isConnected_iff_predications, hasIVProperty_spec, plausiblyScopes_spec]
 
 /-! ## 4. The scope map partitions the predications by label -/
 
